@@ -391,8 +391,9 @@ CHECKS["C15"] = dict(
     level_text="For each run-time-checked operation the FULL small-scope argument space including the invalid part (reshape targets over -2..4; axis lists over [-d-2,d+1] incl. duplicates for transpose, moveaxis, "
                "swapaxes, expand_dims, flip, sum, cumsum, concatenate, stack, take, compress, roll, repeat, tile, pad; incompatible operand pairs for broadcast_to, add, broadcast_arrays, matmul, dot, tensordot) is "
                "executed: has_value(result) <=> NumPy does not raise (validity predicates audited against NumPy 2.4 on every enumerated case), the value equals the model when valid, and nothing may crash.",
-    units=[U(n, "harness/c15_invalid.cpp", flags=["-DC15_" + n.upper()], weight=w) for (n, w) in (("rearr", 4), ("reduce", 1), ("select", 3), ("stack", 1), ("bcast", 1), ("linalg", 3))] +
-          [U(n + "_ndebug", "harness/c15_invalid.cpp", flags=["-DC15_" + n.upper(), "-DNDEBUG"], family=n, shadow=True, weight=w) for (n, w) in (("rearr", 2), ("reduce", 1), ("select", 1), ("stack", 1), ("bcast", 1), ("linalg", 1))] +
+    # --crash-cap: the known findings of this property are mostly aborts; the thorough tier of `linalg` contains > 50000 of them (the runner's default cap)
+    units=[U(n, "harness/c15_invalid.cpp", flags=["-DC15_" + n.upper()], weight=w, args=["--crash-cap", "2000000"]) for (n, w) in (("rearr", 4), ("reduce", 1), ("select", 3), ("stack", 1), ("bcast", 1), ("linalg", 3))] +
+          [U(n + "_ndebug", "harness/c15_invalid.cpp", flags=["-DC15_" + n.upper(), "-DNDEBUG"], family=n, shadow=True, weight=w, args=["--crash-cap", "2000000"]) for (n, w) in (("rearr", 2), ("reduce", 1), ("select", 1), ("stack", 1), ("bcast", 1), ("linalg", 1))] +
           [U("prop_%s_k%d_f%d" % (t[0], k, f), "harness/c_pipeline.cpp", opt="-O0", family="pipe", shards=1, tiers=[t], flags=["-DPIPE_PROP=15", "-DPIPE_KIND=%d" % k, "-DPIPE_FIRST=%d" % f, "-DPIPE_MAXDEPTH=%d" % d])
            for (t, d) in (("quick", 1), ("thorough", 2)) for k in (0, 1, 2, 4) for f in range(12)] +
           [U("prop_san_k4_f%d" % f, "harness/c_pipeline.cpp", opt="-O1", san=True, family="pipe", shadow=True, shards=1, tiers=["thorough"], run_tier="quick", flags=["-DPIPE_PROP=15", "-DPIPE_KIND=4", "-DPIPE_FIRST=%d" % f, "-DPIPE_MAXDEPTH=1"]) for f in (0, 1, 6, 7)] +
